@@ -23,5 +23,6 @@ func main() {
 		vlib.Group{Name: "louvain-multiplex", Gen: genLouvainMultiplex},
 		vlib.Group{Name: "profile", Gen: genProfile},
 		vlib.Group{Name: "expanded-chain", Gen: genExpandedNil},
+		vlib.Group{Name: "hits-edgeless", Gen: genHITSEdgeless}, // must stay last, see genHITSEdgeless
 	)
 }
